@@ -298,6 +298,9 @@ def check_region(ctx, reg, model, rc, tags, rng, origins=None, n_single=150):
     if ok and any(tuple(p.origin) != tuple(reg.origins()[k]) for p, k in zip(polys, ks)):
         ctx.violate("get_location_of returns a polygon that is not the indexed cell", rc, tags=dict(tags, api="get_location_of"))
     nt = int((near | masked).sum())
+    kk = numpy.nonzero(near)[0][:4]
+    ctx.sample({"region": tags.get("ctor"), "dh": float(reg.dh), "edges_x_head": model.ex[:3], "edges_y_head": model.ey[:3],
+                "probes(lon,lat)": numpy.column_stack([lon[kk], lat[kk]]), "masked": masked[kk], "index(-1=outside)": idx_obs[kk], "model_cell": primary[kk]})
     return nt
 
 
